@@ -101,6 +101,8 @@ class Runner:
         self.m = Model()
         self.m.comments = {"FirmwareId": "1100"}
         self.counter = 0
+        # one dict object per configuration, handed to every call unchanged (callers do not copy; see the appnotes)
+        self.cfgs = [dict(c) for c in CONFIGS]
         self.cfg_index = None  # position of the configuration among all components (model)
         self.order = []  # model order: list of ("o", value) / ("c",)
 
@@ -111,12 +113,12 @@ class Runner:
         f = self.obj.bf3file
         if kind == "set":
             conf = CONFIGS[op[1]]
-            f.set_config(dict(conf))
+            f.set_config(self.cfgs[op[1]])
             self.order = [e for e in self.order if e[0] != "c"] + [("c",)]
             self.m.config = conf
         elif kind == "comments":
             conf = CONFIGS[op[1]]
-            f.derive_comments_from_config(dict(conf))
+            f.derive_comments_from_config(self.cfgs[op[1]])
             d = derived_comments(conf)
             for k in ("Configuration", "DeviceSettings"):
                 if k in d:
@@ -134,7 +136,7 @@ class Runner:
             conf = CONFIGS[op[1]]
             cust = op[2]
             had = bool(self.obj.auth_blocks)
-            self.obj.derive_auth_blocks_from_config(dict(conf), cust_key_support=cust)
+            self.obj.derive_auth_blocks_from_config(self.cfgs[op[1]], cust_key_support=cust)
             ident = config_identifier(conf)
             code = conf.get(CODE)
             if not had:
@@ -205,6 +207,10 @@ class Runner:
     # ---- comparison ---------------------------------------------------------------------------
     def compare(self, op):
         ns = self.ns
+        for i, c in enumerate(self.cfgs):
+            if c != CONFIGS[i]:
+                extra = sorted(set(c) ^ set(CONFIGS[i]))
+                return "callers_configuration_dictionary_modified_by_the_library", {"config": i, "keys": extra[:4]}
         f = self.obj.bf3file
         comps = f.components
         is_cfg = []
